@@ -262,7 +262,13 @@ def preset_family(ctx):
     modes = [({"url": "smtps://127.0.0.1:{port}"}, "wrapper"), ({"url": "smtp://127.0.0.1:{port}?tls=required"}, "required"),
              ({"url": "smtp://127.0.0.1:{port}?tls=opportunistic"}, "opportunistic"), ({"url": "smtp://127.0.0.1:{port}"}, "none"),
              ({"url": "smtp://user:pw@127.0.0.1:{port}?tls=required"}, "required"), ({"url": "smtps://user:pw@127.0.0.1:{port}"}, "wrapper"),
-             ({"preset": "relay"}, "wrapper"), ({"preset": "starttls_relay"}, "required")]
+             ({"preset": "relay"}, "wrapper"), ({"preset": "starttls_relay"}, "required"),
+             # the tls parameter wherever it stands in the query, next to others, with a hello name in the path
+             ({"url": "smtp://127.0.0.1:{port}?x=y&tls=required"}, "required"), ({"url": "smtp://127.0.0.1:{port}?tls=required&x=y"}, "required"),
+             ({"url": "smtp://user:pw@127.0.0.1:{port}/client.example?a=1&b=2&tls=opportunistic"}, "opportunistic"), ({"url": "smtp://127.0.0.1:{port}/?foo&tls=required"}, "required"),
+             # and without any timeout configured
+             ({"url": "smtps://user:pw@127.0.0.1:{port}", "no_timeout": True}, "wrapper"), ({"url": "smtp://user:pw@127.0.0.1:{port}?tls=required", "no_timeout": True}, "required"),
+             ({"url": "smtp://127.0.0.1:{port}?tls=opportunistic", "no_timeout": True}, "opportunistic"), ({"preset": "relay", "no_timeout": True}, "wrapper")]
     scs, meta = [], []
     for spec, mode in modes:
         for offer in (True, False):
